@@ -595,7 +595,7 @@ class MatchSorted(Sub):
     name = 'c18.match_sorted'
     rule = ('MATCH(x, a, 1) on every non-decreasing and MATCH(x, a, -1) on every non-increasing array of the '
             'bounded length over {-1,0,1,2,3} x every x in -2..4 step 0.5 x deliveries, and on every sorted array of up to 3 '
-            'one-letter texts of one letter case (A..D / a..d) x 7 lookup texts of the same case; expected = any position '
+            'one-letter texts of one letter case (A..D / a..d) x 14 lookup texts of either case (text is ordered without regard to case, as it is compared under type 0); expected = any position '
             'holding the largest item <= x (smallest item >= x), else #N/A; non-trivial = array has a '
             'duplicate, or x lies strictly between / outside the items')
     min_cases = 500
@@ -628,13 +628,14 @@ class MatchSorted(Sub):
         else:
             f = 'MATCH(%s,%s,%s)' % (lit(x), a, lit(mt))
         o = env.evo(f, vars_, None, cells)
+        key = (lambda v: v.lower()) if isinstance(x, str) else (lambda v: v)
         if mt == 1:
-            cand = [v for v in items if v <= x]
-            best = max(cand) if cand else None
+            cand = [v for v in items if key(v) <= key(x)]
+            best = max(cand, key=key) if cand else None
         else:
-            cand = [v for v in items if v >= x]
-            best = min(cand) if cand else None
-        want = set(i + 1 for i, v in enumerate(items) if best is not None and v == best)
+            cand = [v for v in items if key(v) >= key(x)]
+            best = min(cand, key=key) if cand else None
+        want = set(i + 1 for i, v in enumerate(items) if best is not None and key(v) == key(best))
         if len(set(items)) < len(items) or x not in items:
             env.nt()
         env.note('type %d: %s' % (mt, 'none' if not want else ('exact' if best == x else 'nearest')))
@@ -655,7 +656,8 @@ class MatchSorted(Sub):
         out = []
         xs = XS
         if isinstance(items[0], str):
-            xs = ['A', 'AA', 'B', 'BZ', 'C', 'D', 'E'] if items[0].isupper() else ['a', 'aa', 'b', 'bz', 'c', 'd', 'e']
+            # lookups of the same letter case and of the other one: text is compared without regard to case, as under type 0
+            xs = ['A', 'AA', 'B', 'BZ', 'C', 'D', 'E', 'a', 'aa', 'b', 'bz', 'c', 'd', 'e']
         for x in xs:
             for xdl in ('lit', 'var'):
                 r = self.one(env, mt, items, dl, xdl, x)
